@@ -21,8 +21,9 @@
    * register_signature reads self.map again for every method; MultiTypeMap.register clears the entry
      dictionary, the remembered errors and the candidate-code sets (since the repair of KF-04);
    * rewritten bodies reach the table through a module global set at adaptation time ([s_cnmap]);
-   * resolve writes: candidate codes (inside mro), then first-rank entry, then continuation entries keyed by the
-     caller, remembered error at an ambiguous rank -- in that order, one dictionary write per step. *)
+   * resolve writes: candidate codes (inside mro); then the collected writes in REVERSE order of the ranks (since the
+     repair of KF-20): remembered error at an ambiguous rank / continuation entries keyed by the caller bottom-up, the
+     first-rank entry -- whose presence suppresses any later resolution -- last; one dictionary write per step. *)
 From Coq Require Import List Bool Arith.
 Import ListNotations.
 
@@ -95,7 +96,8 @@ Definition apply_wr (T : table) (w : wr) : table :=
   | WErr c e => {| t_regs := t_regs T; t_dict := t_dict T; t_errs := aupd ckey_eqb c e (t_errs T); t_all := t_all T; t_obj := t_obj T |}
   end.
 
-(* the write loop of resolve: [c] is 0 for the first rank, then S (the handler of the previous rank) *)
+(* the writes resolve collects, top-down: [c] is 0 for the first rank, then S (the handler of the previous rank);
+   they are applied in reverse ([rev], see PMro) *)
 Fixpoint writes_from (k : key) (c : nat) (rs : list rank) : list wr :=
   match rs with
   | [] => []
@@ -215,7 +217,7 @@ Section Machine.
                                  t_all := aupd Nat.eqb k (handlers rs) (t_all T); t_obj := t_obj T |} in
         match rs with
         | [] => (s', at_pc l (PDone (RErr ENoMethod)))
-        | _ => (s', at_pc l (PWrite t k cl false (writes_from k 0 rs)))
+        | _ => (s', at_pc l (PWrite t k cl false (rev (writes_from k 0 rs))))   (* for ... in reversed(writes) *)
         end
     | PWrite t k cl st (w :: ws) => (set_tbl s t (apply_wr (tbl s t) w), at_pc l (PWrite t k cl true ws))
     | PWrite t k cl st [] => (s, at_pc l (PAfter t k cl))
@@ -334,7 +336,7 @@ Section Machine.
     | _ => false
     end.
   Definition in_compile (l : local) : bool := match l_pc l with PComp _ _ => true | _ => false end.
-  (* KF-20's window: inside resolve's write loop, after the first write, before the last *)
+  (* inside resolve's write loop, after the first write, before the last (was KF-20's window; harmless since the repair) *)
   Definition in_write_window (l : local) : bool :=
     match l_pc l with
     | PWrite _ _ _ true (_ :: _) => true
@@ -342,8 +344,9 @@ Section Machine.
     end.
   (* KF-19's window: a table that is not completely filled is in service *)
   Definition in_fill_window (l : local) : bool := in_compile l && negb (before_swap l).
-  (* C18's proved domain: the points of a CALL at which abandoning it is harmless = outside both windows *)
-  Definition safe_point (l : local) : bool := before_swap l || negb (in_compile l) && negb (in_write_window l).
+  (* C18's proved domain: the points of a CALL at which abandoning it is harmless = outside KF-19's window
+     (every point of resolve's write loop included) *)
+  Definition safe_point (l : local) : bool := before_swap l || negb (in_compile l).
 End Machine.
 
 (* ---- an executable chain: per method and key an optional rank number; larger runs first, ties are ambiguous ---- *)
